@@ -131,7 +131,7 @@ func variantPipelines(x *Ctx) {
 			continue
 		}
 		ps := x.pathsQuiet(f)
-		want := "call[" + ctnPkg + n + "Reader](call[bytes.NewReader](arg0))"
+		want := x.call(ctnPkg+n+"Reader", "call[bytes.NewReader](arg0)")
 		ok := len(ps) == 1 && ps[0].End == paths.EndReturn && ps[0].Results()[0].String() == want+"#0" && ps[0].Results()[1].String() == want+"#1"
 		got := ""
 		if len(ps) > 0 && ps[0].End == paths.EndReturn {
@@ -146,7 +146,7 @@ func variantPipelines(x *Ctx) {
 			continue
 		}
 		ps := x.pathsQuiet(f)
-		want := "call[" + ctnPkg + c.core + "](call[encoding/base64.NewDecoder](*global(encoding/base64.StdEncoding),arg0))"
+		want := x.call(ctnPkg+c.core, "call[encoding/base64.NewDecoder](*global(encoding/base64.StdEncoding),arg0)")
 		ok := len(ps) == 1 && ps[0].End == paths.EndReturn && ps[0].Results()[0].String() == want+"#0"
 		x.C.Obl("C17.R1", "base64-wraps-caller-stream:"+c.n, x.pos(f), c.n+" decodes base64 from the caller's reader and hands that to "+c.core, ok, "")
 	}
@@ -253,11 +253,11 @@ func allOrNothing(x *Ctx) {
 	}
 	// CBOR: iterator loop
 	if f := x.fn("C17.R3", ctnPkg+"FromCborReader"); f != nil {
-		fi := paths.Info(f)
-		if len(fi.Loops) != 1 {
-			x.C.Unresolved("C17.R3", "loop:FromCborReader", x.pos(f), fmt.Sprintf("expected one loop over the token list, found %d", len(fi.Loops)))
+		ls := loopsIn(f)
+		if len(ls) != 1 {
+			x.C.Unresolved("C17.R3", "loop:FromCborReader", x.pos(f), fmt.Sprintf("expected one loop over the token list, found %d", len(ls)))
 		} else {
-			l := fi.Loops[0]
+			l := ls[0].L
 			x.mustBlock("C17.R3", "cbor:addToken-error", f, l, paths.CallFails(add), 0, "an iteration continues (or the function succeeds from inside the loop) only if addToken succeeded")
 			x.mustBlock("C17.R3", "cbor:iterator-error", f, l, paths.CallFails(func(n string, _ *paths.Term) bool {
 				return strings.HasSuffix(n, "datamodel.ListIterator.Next") || strings.HasSuffix(n, "datamodel.Node.AsBytes")
